@@ -181,35 +181,48 @@ func checkC09(c *Ctx) {
 			continue
 		}
 		gc := newGuardCache(c)
+		f := f
+		sizedAlloc := func(at ssa.Instruction, size ssa.Value, form string) {
+			src := wireLengthSource(size, 0)
+			if src == nil {
+				return
+			}
+			// guarded by Has(n) / Len() >= n on the same value?
+			guarded := false
+			ns := c.Sx().Of(size).String()
+			for _, ft := range gc.of(at.Block()) {
+				if strings.Contains(ft.str, "uio.Buffer).Has]") && strings.Contains(ft.str, c.Sx().Of(src).String()) && ft.pol {
+					guarded = true
+				}
+			}
+			if up := e.prover().upper(size, e.prover().factsAt(at.Block()), 0); up <= 512 {
+				guarded = true // small constant bound (fixed-size records)
+			}
+			if !guarded {
+				r.Violation("C09-K5", shortName(f)+": allocation sized by an unvalidated wire length ("+shortDesc(size, 3)+")", c.P.ipos(at),
+					fmt.Sprintf(form, ns)+" allocates what a length field of the input claims before the input is known to contain that many bytes: a few bytes of input make the decoder allocate tens of kilobytes each (memory amplification), e.g. an item length 0xffff repeated")
+			}
+		}
 		allInstrs(f, func(in ssa.Instruction) {
 			switch x := in.(type) {
 			case *ssa.MakeSlice:
 				nMake++
-				src := wireLengthSource(x.Len, 0)
-				if src == nil {
-					return
-				}
-				// guarded by Has(n) / Len() >= n on the same value?
-				guarded := false
-				ns := c.Sx().Of(x.Len).String()
-				for _, ft := range gc.of(x.Block()) {
-					if strings.Contains(ft.str, "uio.Buffer).Has]") && strings.Contains(ft.str, c.Sx().Of(src).String()) && ft.pol {
-						guarded = true
-					}
-				}
-				if up := e.prover().upper(x.Len, e.prover().factsAt(x.Block()), 0); up <= 512 {
-					guarded = true // small constant bound (fixed-size records)
-				}
-				if !guarded {
-					r.Violation("C09-K5", shortName(f)+": allocation sized by an unvalidated wire length ("+shortDesc(x.Len, 3)+")", c.P.ipos(x),
-						"make(…, "+ns+") allocates what a length field of the input claims before the input is known to contain that many bytes: a few bytes of input make the decoder allocate tens of kilobytes each (memory amplification), e.g. an item length 0xffff repeated")
-				}
+				sizedAlloc(x, x.Len, "make(…, %s)")
 			case *ssa.Call:
 				sf := x.Call.StaticCallee()
 				if sf == nil {
 					return
 				}
 				fk := funcKey(sf)
+				// growth requests of the standard builders allocate like make
+				switch gk := funcKey(originOf(sf)); {
+				case (gk == "(*strings.Builder).Grow" || gk == "(*bytes.Buffer).Grow") && len(x.Call.Args) == 2:
+					nMake++
+					sizedAlloc(x, x.Call.Args[1], gk+"(%s)")
+				case gk == "slices.Grow" && len(x.Call.Args) == 2:
+					nMake++
+					sizedAlloc(x, x.Call.Args[1], "slices.Grow(…, %s)")
+				}
 				if fk != "fmt.Errorf" && fk != "fmt.Sprintf" && !strings.HasSuffix(fk, ".Printf") && fk != "fmt.Sprint" {
 					return
 				}
